@@ -1,0 +1,19 @@
+//go:build verif
+
+package proxy
+
+import (
+	"net"
+	"time"
+
+	"go.minekube.com/gate/pkg/edition/java/config"
+)
+
+// VerifWrapProxyProtocol is newProxyProtocol(cfg) followed by wrapConnTimeout(conn, timeout).
+func VerifWrapProxyProtocol(cfg *config.Config, conn net.Conn, timeout time.Duration) (net.Conn, error) {
+	p, err := newProxyProtocol(cfg)
+	if err != nil {
+		return nil, err
+	}
+	return p.wrapConnTimeout(conn, timeout), nil
+}
